@@ -108,9 +108,10 @@ Theorem load_period : forall w i op, load w i = inr op ->
 Proof. exact PeriodPick.load_period. Qed.
 Print Assumptions load_period.
 
-(** "the keywords today, yesterday, last7 and last30 are resolved against --today" *)
+(** "the keywords today, yesterday, last7 and last30 are resolved against --today"
+    ([today] is "now" itself, unchanged: no conversion to the process zone, fix 4fa5d57) *)
 Theorem keywords_spec : forall w now toks,
-  (time_from_string w now toks (b "today") = inr (to_local now (w_tz w)) /\ inst (to_local now (w_tz w)) = inst now) /\
+  time_from_string w now toks (b "today") = inr now /\
   (exists t, time_from_string w now toks (b "yesterday") = inr t /\ inst t = inst now - 1 * ns_per_day) /\
   (exists t, time_from_string w now toks (b "last7") = inr t /\ inst t = inst now - 7 * ns_per_day) /\
   (exists t, time_from_string w now toks (b "last30") = inr t /\ inst t = inst now - 30 * ns_per_day) /\
@@ -121,10 +122,11 @@ Theorem keywords_spec : forall w now toks,
 Proof. exact PeriodPick.keywords_spec. Qed.
 Print Assumptions keywords_spec.
 
-(** "`summary DATE` selects exactly that calendar day", whatever the zone, under --today D *)
-Theorem summary_selects_day_any_tz : forall D tz d, tz_ok tz ->
-  let t := to_local (time_of_civil D) tz in
-  (day_begin t <= inst (time_of_civil d) <= day_end t <-> day_number d = day_number D).
+(** "`summary DATE` selects exactly that calendar day", whatever the zone, under --today D:
+    for EVERY zone offset, no bound (the keyword is the date as given, the zone does not enter) *)
+Theorem summary_selects_day_any_tz : forall w tz toks D d,
+  exists t, time_from_string (with_tz w tz) (time_of_civil D) toks (b "today") = inr t /\
+            (day_begin t <= inst (time_of_civil d) <= day_end t <-> day_number d = day_number D).
 Proof. exact PeriodSummary.summary_selects_day_any_tz. Qed.
 Print Assumptions summary_selects_day_any_tz.
 
@@ -141,11 +143,34 @@ Proof. exact PeriodSummary.summary_selects_yesterday. Qed.
 Print Assumptions summary_selects_yesterday.
 
 (** on valid dates, "the same day number" is "the same date" *)
-Theorem summary_selects_calendar_day : forall D tz d, tz_ok tz -> valid_civil D -> valid_civil d ->
-  let t := to_local (time_of_civil D) tz in
-  (in_interval (Some (summary_begin t)) (Some (summary_end t)) (time_of_civil d) = true <-> d = D).
+Theorem summary_selects_calendar_day : forall w tz toks D d, valid_civil D -> valid_civil d ->
+  exists t, time_from_string (with_tz w tz) (time_of_civil D) toks (b "today") = inr t /\
+            (in_interval (Some (summary_begin t)) (Some (summary_end t)) (time_of_civil d) = true <-> d = D).
 Proof. exact PeriodDays.summary_selects_calendar_day. Qed.
 Print Assumptions summary_selects_calendar_day.
+
+(** the whole command: with --today s, in every process zone (any offset whatsoever) and whatever
+    the wall clock says, [summary today] is the walk over the window of the day D that [s] denotes,
+    and that window keeps exactly the records dated D *)
+Theorem summary_today_exact_any_zone : forall NM w tz clock i s op,
+  i_f_today i = Some s -> i_cmd i = CSummary (b "today") -> load (with_zone w tz clock) i = inr op ->
+  exists D, parse_date (rc_date (op_rc op)) s = Some D /\ valid_civil D /\
+    let bt := Some (summary_begin (time_of_civil D)) in
+    let et := Some (summary_end (time_of_civil D)) in
+    run NM (with_zone w tz clock) i = run_db_log NM w op (rep_summary NM (op_rc op)) bt et /\
+    (forall d, valid_civil d -> (in_interval bt et (time_of_civil d) = true <-> d = D)) /\
+    (forall (n : pnode NM) c, parse_date (rc_date (op_rc op)) (header n) = Some c ->
+                              (sel NM (rc_date (op_rc op)) bt et n = true <-> c = D)).
+Proof. exact PeriodRun.summary_today_exact_any_zone. Qed.
+Print Assumptions summary_today_exact_any_zone.
+
+(** general lemma about windows, kept: a UTC midnight re-labelled with any fixed zone offset (what
+    [today] was under --today D before fix 4fa5d57) has the midnight of D and no other in its window *)
+Theorem window_of_midnight_in_zone : forall D tz d,
+  let t := to_local (time_of_civil D) tz in
+  (day_begin t <= inst (time_of_civil d) <= day_end t <-> day_number d = day_number D).
+Proof. exact PeriodSummary.window_of_midnight_in_zone. Qed.
+Print Assumptions window_of_midnight_in_zone.
 
 (** the general fact behind it, for ANY resolved argument [t] (wall clock included): the one UTC
     midnight selected is that of [t]'s local day in zones at or east of UTC and that of the
@@ -165,12 +190,27 @@ Theorem days_from_civil_injective : forall c1 c2, valid_civil c1 -> valid_civil 
 Proof. exact PeriodCivil.days_from_civil_injective. Qed.
 Print Assumptions days_from_civil_injective.
 
-(** "none of this depends on the process time zone": the whole program, every command, with --today *)
+(** "none of this depends on the process time zone": the whole program, every command, with --today,
+    for every pair of offsets whatsoever *)
 Theorem tz_independent : forall NM w i s tz1 tz2,
-  i_f_today i = Some s -> tz_ok tz1 -> tz_ok tz2 ->
+  i_f_today i = Some s ->
   run NM (with_tz w tz1) i = run NM (with_tz w tz2) i.
 Proof. exact PeriodTz.tz_independent. Qed.
 Print Assumptions tz_independent.
+
+(** ... also when the wall clock is read in the other zone (the only way the zone reaches the program
+    since fix 4fa5d57: [time.Now()] is local), and at whatever instant: with --today the clock is not consulted *)
+Theorem tz_independent_clock : forall NM w i s tz1 tz2 c1 c2,
+  i_f_today i = Some s ->
+  run NM (with_zone w tz1 c1) i = run NM (with_zone w tz2 c2) i.
+Proof. exact PeriodTz.tz_independent_clock. Qed.
+Print Assumptions tz_independent_clock.
+
+(** the field [w_tz] alone is consulted by no command, with or without --today *)
+Theorem run_ignores_process_zone : forall NM w i tz1 tz2,
+  run NM (with_tz w tz1) i = run NM (with_tz w tz2) i.
+Proof. exact PeriodTz.run_ignores_process_zone. Qed.
+Print Assumptions run_ignores_process_zone.
 
 (** without --today too, for every command except [summary today] *)
 Theorem tz_independent_unless_summary_today : forall NM w i tz1 tz2,
@@ -191,11 +231,12 @@ Theorem walk_depends_on_midnights : forall NM (R : reporter NM) pd pf toks bt et
 Proof. exact PeriodTz.walk_depends_on_midnights. Qed.
 Print Assumptions walk_depends_on_midnights.
 
-(** FALSE without --today: [summary today] against the wall clock depends on the zone
-    (west of UTC it prints the record dated tomorrow) *)
+(** FALSE without --today: [summary today] against the wall clock depends on the zone the clock is
+    read in (west of UTC it prints the record dated tomorrow): the same instant, two real zones *)
 Theorem tz_independent_without_today_refuted :
-  exists w i tz1 tz2, tz_ok tz1 /\ tz_ok tz2 /\ i_f_today i = None /\
-                      run ZNum (with_tz w tz1) i <> run ZNum (with_tz w tz2) i.
+  exists w i tz1 tz2 c1 c2, tz_ok tz1 /\ tz_ok tz2 /\ off c1 = tz1 /\ off c2 = tz2 /\ inst c1 = inst c2 /\
+                            i_f_today i = None /\
+                            run ZNum (with_zone w tz1 c1) i <> run ZNum (with_zone w tz2 c2) i.
 Proof. exact PeriodRun.tz_independent_without_today_refuted. Qed.
 Print Assumptions tz_independent_without_today_refuted.
 
